@@ -94,11 +94,12 @@ pub fn build_setup(rng: &mut Rng, world: &World, tier: Tier) -> Option<Setup> {
     // hostile transaction shapes: version 1 (BIP-68 off: older() cannot be met whatever the
     // sequence says) and final sequences (nLockTime off: after() cannot be met)
     let version = if rng.chance(1, 4) { 1 } else { 2 };
-    let final_seq = rng.chance(1, 8);
+    let final_seq = rng.chance(1, 12);
     for (i, ip) in inputs.iter().enumerate() {
         let (_, o) = ip.case.timelocks();
         let mut seq = o.iter().cloned().filter(|v| v & (1 << 22) == 0).max().unwrap_or(0xffff_fffd);
-        if final_seq {
+        // all inputs final, or just this one (another input's finality is none of this input's business)
+        if final_seq || rng.chance(1, 8) {
             seq = 0xffff_ffff;
         } else if !o.is_empty() && rng.chance(1, 6) {
             seq = *rng.pick(&[seq.wrapping_sub(1), seq | (1 << 31), seq | (1 << 22), 0]);
@@ -583,6 +584,51 @@ fn check_sighash_msg(rep: &mut Report, case: u64, world: &World, s: &Setup, psbt
     }
 }
 
+/// The PSBT satisfier sees the whole unsigned transaction, so its lock-time answers can be exact:
+/// `check_after(n)` / `check_older(n)` must be what BIP-65 / BIP-68+112 say for THIS input of THIS
+/// transaction (version, this input's sequence, nLockTime) - a wrong "no" makes the non-malleable
+/// satisfier pick a malleable branch, a wrong "yes" an invalid one.
+fn check_psbt_satisfier_locks(rep: &mut Report, case: u64, s: &Setup, psbt: &Psbt, i: usize) {
+    use miniscript::psbt::PsbtInputSatisfier;
+    use miniscript::Satisfier;
+    let spend = Spend { tx: s.tx.clone(), prevouts: s.prevouts.clone(), idx: i };
+    let (afters, olders) = s.inputs[i].case.timelocks();
+    let mut a: Vec<u32> = afters.clone();
+    a.extend([1, 499_999_999, 500_000_000, s.tx.lock_time.to_consensus_u32(), s.tx.lock_time.to_consensus_u32().wrapping_add(1)]);
+    let mut o: Vec<u32> = olders.clone();
+    let sq = s.tx.input[i].sequence.0;
+    o.extend([1, 65_535, (1 << 22) | 1, sq & 0x0040_ffff, (sq & 0x0040_ffff).wrapping_add(1)]);
+    let sat = PsbtInputSatisfier::new(psbt, i);
+    for n in a {
+        if n == 0 || n >= 0x8000_0000 {
+            continue;
+        }
+        rep.eval();
+        let lib = <PsbtInputSatisfier as Satisfier<Dk>>::check_after(&sat, absolute::LockTime::from_consensus(n));
+        if lib != spend.cltv_ok(n) {
+            rep.violation(case, "C14:psbt-satisfier:check_after".into(), format!("input {} of a version-{} tx with nLockTime {} and sequences {:?}: check_after({}) = {} but OP_CHECKLOCKTIMEVERIFY {}", i, s.tx.version.0, s.tx.lock_time.to_consensus_u32(), s.tx.input.iter().map(|x| format!("{:#x}", x.sequence.0)).collect::<Vec<_>>(), n, lib, if lib { "fails" } else { "passes" }));
+        } else {
+            rep.count("psbt-satisfier-lock-answer-exact");
+        }
+    }
+    for n in o {
+        let lt = match bitcoin::relative::LockTime::from_sequence(Sequence(n)) {
+            Ok(l) => l,
+            Err(_) => continue,
+        };
+        if n == 0 {
+            continue;
+        }
+        rep.eval();
+        let lib = <PsbtInputSatisfier as Satisfier<Dk>>::check_older(&sat, lt);
+        if lib != spend.csv_ok(n) {
+            rep.violation(case, "C14:psbt-satisfier:check_older".into(), format!("input {} of a version-{} tx with sequence {:#x}: check_older({:#x}) = {} but OP_CHECKSEQUENCEVERIFY {}", i, s.tx.version.0, sq, n, lib, if lib { "fails" } else { "passes" }));
+        } else {
+            rep.count("psbt-satisfier-lock-answer-exact");
+        }
+    }
+}
+
 pub fn run(cfg: &RunCfg, rep: &mut Report) {
     let world = World::new(cfg.seed);
     let total = cfg.n_cases(12_000, 300_000);
@@ -729,6 +775,7 @@ pub fn run(cfg: &RunCfg, rep: &mut Report) {
                     check_update_fields(rep, i, &world, &s, &psbt, *k);
                     check_plan_update(rep, i, &world, &s, &psbt, *k);
                     check_sighash_msg(rep, i, &world, &s, &psbt, *k);
+                    check_psbt_satisfier_locks(rep, i, &s, &psbt, *k);
                 }
                 (Op::Update(k), Outcome::Err(_)) => {
                     rep.violation(i, "C14:update-refused".into(), format!("update_input_with_descriptor({}) refused a matching utxo: {}", k, describe(&s, &hist)));
